@@ -314,6 +314,13 @@ package runtime
 //@ ensures [C16:custom] reader != nil && data != nil && !typeis(data, "*encoding/csv.Writer") && implements(data, "CSVWriter") ==> calls(PC) == 1 && arg(PC,0,0) == data && result == ret(PC,0,0) && calls(AW) == 0
 //@ ensures [C16:readerfrom] calls(RM) == 1 ==> calls(BC) == 1 && ret(BC,0,0) == nil && recv(RM,0) == data && result == ret(RM,0,1)
 //@ ensures [C16:unmarshal] calls(UB) == 1 ==> calls(BC) == 1 && ret(BC,0,0) == nil && recv(UB,0) == data && result == ret(UB,0,0)
+//@ watch NWR = call encoding/csv.NewWriter
+//@ watch RCP = call reflect.Copy
+//@ watch VSET = call (reflect.Value).Set
+//@ ensures [C16:writeropts] calls(NWR) <= 1 && (calls(NWR) == 1 ==> calls(AW) == 1 && arg(AW,0,1) == ret(NWR,0,0))
+//@ watch INDC = call reflect.Indirect
+//@ ensures [C16:recordsdest] calls(PC) == 1 && calls(INDC) == 1 && ret(PC,0,0) == nil ==> calls(VSET) == 1
+//@ ensures [C16:recordscopied] calls(VSET) <= 1 && (calls(VSET) == 1 ==> calls(RCP) == 1 && arg(RCP,0,0) == arg(VSET,0,1) && calls(PC) == 1 && ret(PC,0,0) == nil && result == nil)
 
 //@ func CSVProducer$1
 //@ watch NW = call encoding/csv.NewWriter
@@ -337,6 +344,16 @@ package runtime
 //@ ensures [C16:csvreader] writer != nil && data != nil && typeis(data, "*encoding/csv.Reader") && nonnilptr(data) ==> calls(PC) == 1 && arg(PC,0,1) == data && calls(AR) == 1 && arg(AR,0,1) == unboxptr(data, "*encoding/csv.Reader")
 //@ ensures [C16:custom] writer != nil && data != nil && !typeis(data, "*encoding/csv.Reader") && implements(data, "CSVReader") ==> calls(PC) == 1 && arg(PC,0,1) == data && calls(AR) == 0
 //@ ensures [C16:marshalerr] calls(MB) == 1 && ret(MB,0,1) != nil ==> result == ret(MB,0,1) && calls(BC) == 0 && calls(PC) == 0
+//@ watch NRD = call encoding/csv.NewReader
+//@ ensures [C16:readeropts] calls(NRD) <= 1 && (calls(NRD) == 1 ==> calls(AR) == 1 && arg(AR,0,1) == ret(NRD,0,0))
+//@ watch GOP = call (*golang.org/x/sync/errgroup.Group).Go
+//@ watch WAIT = call (*golang.org/x/sync/errgroup.Group).Wait
+//@ watch RCP = call reflect.Copy
+//@ watch PIPE = call io.Pipe
+//@ ensures [C16:writerto] calls(PIPE) <= 1 && (calls(PIPE) == 1 ==> calls(GOP) == 2 && calls(WAIT) == 1 && result == ret(WAIT,0,0) && arg(NRD,0,0) == boxas(ret(PIPE,0,0), "*io.PipeReader"))
+//@ ensures [C16:recordssource] calls(PC) == 1 && calls(IND) == 1 ==> calls(RCP) == 1 && typeis(arg(PC,0,1), "*github.com/go-openapi/runtime.csvRecordsWriter")
+//@ ensures [C16:records] calls(RCP) <= 1 && (calls(RCP) == 1 ==> calls(PC) == 1 && time(RCP,0) < time(PC,0) && arg(RCP,0,1) == ret(IND,0,0))
+//@ watch IND = call reflect.Indirect
 
 // ---------------------------------------------------------------- request.go / client_request.go helpers used by the client (C11, C12)
 
